@@ -40,6 +40,10 @@ Fixpoint edges_sorted (E : list (Z * Z)) : bool :=
 (* what every cnfgen.graphs.Graph satisfies *)
 Definition graph_wf (n : Z) (E : list (Z * Z)) : bool := (0 <=? n) && edges_ok n E && edges_sorted E.
 
+(* S is a union of connected components: no edge leaves S *)
+Definition closed_under_edges (S : Z -> bool) (E : list (Z * Z)) : Prop :=
+  forall e, In e E -> S (fst e) = S (snd e).
+
 (* the edges with their identifiers 1, 2, ... *)
 Definition eidx (E : list (Z * Z)) : list (Z * (Z * Z)) := combine (rng (len E)) E.
 (* [e(u,v) for u in G.neighbors(v)] : identifiers of the edges at v, smaller neighbours first *)
